@@ -11,6 +11,7 @@ import (
 
 	"perkeep.org/pkg/blob"
 	"perkeep.org/pkg/index"
+	"perkeep.org/pkg/schema"
 	"perkeep.org/pkg/types/camtypes"
 )
 
@@ -48,11 +49,30 @@ type ProbeOpts struct {
 	Signers []*Signer
 	Values  []string
 	// Sorted: canonicalise answers whose order the API leaves unspecified.
+
+	// Permanodes are the world's permanodes (ground truth, not what an index says).
+	Permanodes []blob.Ref
+	// FewTimes is a small subset of Times (zero, before all, two inside, after all) for the
+	// lookups that take a time argument and are asked for many refs.
+	FewTimes []time.Time
+	// Suffixes are the camliPath suffixes used by the world plus two unused ones.
+	Suffixes []string
+	// NodeTypes are the camliNodeType values used by the world plus an unused one.
+	NodeTypes []string
+}
+
+// qv shortens a long value for use inside a question string (the full value still decides the
+// question: length and a checksum are appended).
+func qv(v string) string {
+	if len(v) <= 48 {
+		return v
+	}
+	return fmt.Sprintf("%s...(%d bytes, %v)", v[:32], len(v), blob.RefFromString(v).String()[:20])
 }
 
 // WorldProbeOpts derives probe options from a world.
 func WorldProbeOpts(w *World) ProbeOpts {
-	o := ProbeOpts{Signers: w.Signers}
+	o := ProbeOpts{Signers: w.Signers, Permanodes: w.Permanodes}
 	for _, b := range w.Blobs {
 		o.Refs = append(o.Refs, b.Ref)
 	}
@@ -63,13 +83,29 @@ func WorldProbeOpts(w *World) ProbeOpts {
 	attrSet := map[string]bool{"tag": true, "title": true, "camliContent": true, "camliMember": true, "camliPath:foo": true, "nonexistent": true}
 	valSet := map[string]bool{"foo": true, "": true}
 	var dates []time.Time
+	sufSet := map[string]bool{"foo": true, "bar": true, "no-such-suffix": true}
+	ntSet := map[string]bool{"verif:unused-node-type": true}
 	for _, c := range w.Claims {
 		if c.Attr != "" {
 			attrSet[c.Attr] = true
 		}
+		if strings.HasPrefix(c.Attr, "camliPath:") {
+			sufSet[strings.TrimPrefix(c.Attr, "camliPath:")] = true
+		}
+		if c.Attr == "camliNodeType" && c.Value != "" {
+			ntSet[c.Value] = true
+		}
 		valSet[c.Value] = true
 		dates = append(dates, c.Date)
 	}
+	for s := range sufSet {
+		o.Suffixes = append(o.Suffixes, s)
+	}
+	sort.Strings(o.Suffixes)
+	for s := range ntSet {
+		o.NodeTypes = append(o.NodeTypes, s)
+	}
+	sort.Strings(o.NodeTypes)
 	for a := range attrSet {
 		o.Attrs = append(o.Attrs, a)
 	}
@@ -80,7 +116,9 @@ func WorldProbeOpts(w *World) ProbeOpts {
 	sort.Strings(o.Values)
 	sort.Slice(dates, func(i, j int) bool { return dates[i].Before(dates[j]) })
 	o.Times = []time.Time{{}}
+	o.FewTimes = []time.Time{{}}
 	if len(dates) > 0 {
+		o.FewTimes = append(o.FewTimes, dates[0].Add(-time.Hour), dates[len(dates)/3], dates[(2*len(dates))/3].Add(time.Second), dates[len(dates)-1].Add(time.Hour))
 		o.Times = append(o.Times, dates[0].Add(-time.Hour), dates[len(dates)-1].Add(time.Hour))
 		// exactly at, and between
 		step := 1
@@ -127,6 +165,10 @@ func Probe(x *index.Index, c *index.Corpus, o ProbeOpts) []Answer {
 		add("GetFileInfo "+ref.String(), fmt.Sprintf("%s %q %d %q whole=%v t=%v mt=%v", errClass(err), fi.FileName, fi.Size, fi.MIMEType, fi.WholeRef, fmtT3339(fi.Time), fmtT3339(fi.ModTime)))
 		ii, err := x.GetImageInfo(ctx, ref)
 		add("GetImageInfo "+ref.String(), fmt.Sprintf("%s %v", errClass(err), ii))
+		mt, err := x.GetMediaTags(ctx, ref)
+		add("GetMediaTags "+ref.String(), errClass(err)+" "+mapStr(mt))
+		loc, err := x.GetFileLocation(ctx, ref)
+		add("GetFileLocation "+ref.String(), fmt.Sprintf("%s %v", errClass(err), loc))
 		// directory members
 		{
 			ch := make(chan blob.Ref, 1000)
@@ -162,26 +204,78 @@ func Probe(x *index.Index, c *index.Corpus, o ProbeOpts) []Answer {
 		for _, s := range o.Signers {
 			ps, err := x.PathsOfSignerTarget(ctx, s.PubRef, ref)
 			add(fmt.Sprintf("PathsOfSignerTarget %s %v", s.KeyID, ref), errClass(err)+" "+pathsStr(ps))
-			for _, suffix := range []string{"foo", "bar"} {
+			suffixes := o.Suffixes
+			if len(suffixes) == 0 {
+				suffixes = []string{"foo", "bar"}
+			}
+			for _, suffix := range suffixes {
 				ps, err := x.PathsLookup(ctx, s.PubRef, ref, suffix)
-				add(fmt.Sprintf("PathsLookup %s %v %s", s.KeyID, ref, suffix), errClass(err)+" "+pathsStr(ps))
+				add(fmt.Sprintf("PathsLookup %s %v %s", s.KeyID, ref, qv(suffix)), errClass(err)+" "+pathsStr(ps))
 			}
 		}
 	}
-	for _, s := range o.Signers {
-		for _, before := range []time.Time{{}} {
-			ch := make(chan camtypes.RecentPermanode, 1000)
-			err := x.GetRecentPermanodes(ctx, ch, s.PubRef, 1000, before)
-			var rs []string
-			for rp := range ch {
-				rs = append(rs, fmt.Sprintf("%v@%s", rp.Permanode, fmtTime(rp.LastModTime)))
+	// lookups asked for the world's permanodes only (ground truth selects them, not the index)
+	for _, pn := range o.Permanodes {
+		for _, attr := range o.Attrs {
+			cl, err := x.AppendClaims(ctx, nil, pn, "", attr)
+			var ss []string
+			for i := range cl {
+				ss = append(ss, claimStr(&cl[i]))
 			}
-			add("GetRecentPermanodes "+s.KeyID, errClass(err)+" "+strings.Join(rs, " "))
+			add(fmt.Sprintf("Index.AppendClaims %v attrFilter=%q", pn, qv(attr)), errClass(err)+" "+strings.Join(ss, " "))
 		}
-		for _, attr := range []string{"tag", "title"} {
+		for _, s := range o.Signers {
+			for _, suffix := range o.Suffixes {
+				for _, at := range o.FewTimes {
+					p, err := x.PathLookup(ctx, s.PubRef, pn, suffix, at)
+					var ps []*camtypes.Path
+					if p != nil {
+						ps = append(ps, p)
+					}
+					add(fmt.Sprintf("PathLookup %s %v %s at=%s", s.KeyID, pn, qv(suffix), fmtTime(at)), errClass(err)+" "+pathsStr(ps))
+				}
+			}
+		}
+	}
+	if c == nil {
+		var all []string
+		err := x.EnumerateBlobMeta(ctx, func(bm camtypes.BlobMeta) bool {
+			all = append(all, fmt.Sprintf("%v:%d:%s", bm.Ref, bm.Size, bm.CamliType))
+			return true
+		})
+		sort.Strings(all)
+		add("Index.EnumerateBlobMeta(sorted)", errClass(err)+" "+strings.Join(all, " "))
+	}
+	for _, s := range o.Signers {
+		befores := o.FewTimes
+		if len(befores) == 0 {
+			befores = []time.Time{{}}
+		}
+		for _, before := range befores {
+			for _, limit := range []int{1000, 1} {
+				if limit == 1 && before.IsZero() {
+					continue
+				}
+				ch := make(chan camtypes.RecentPermanode, 1000)
+				err := x.GetRecentPermanodes(ctx, ch, s.PubRef, limit, before)
+				var rs []string
+				for rp := range ch {
+					rs = append(rs, fmt.Sprintf("%v@%s", rp.Permanode, fmtTime(rp.LastModTime)))
+				}
+				q := "GetRecentPermanodes " + s.KeyID
+				if !before.IsZero() || limit != 1000 {
+					q += fmt.Sprintf(" before=%s limit=%d", fmtTime(before), limit)
+				}
+				add(q, errClass(err)+" "+strings.Join(rs, " "))
+			}
+		}
+		for _, attr := range []string{"tag", "title", "camliRoot", "camliImportRoot"} {
 			for _, val := range o.Values {
 				if len(val) > 20 && blobLike(val) {
 					continue
+				}
+				if (attr == "camliRoot" || attr == "camliImportRoot") && len(val) < 100 && val != "" {
+					continue // those two attributes only carry the long values (and the prefix-less query)
 				}
 				ch := make(chan blob.Ref, 1000)
 				err := x.SearchPermanodesWithAttr(ctx, ch, &camtypes.PermanodeByAttrRequest{Signer: s.PubRef, Attribute: attr, Query: val})
@@ -189,7 +283,9 @@ func Probe(x *index.Index, c *index.Corpus, o ProbeOpts) []Answer {
 				for r := range ch {
 					rs = append(rs, r.String())
 				}
-				add(fmt.Sprintf("SearchPermanodesWithAttr %s %s=%q", s.KeyID, attr, val), errClass(err)+" "+strings.Join(rs, " "))
+				add(fmt.Sprintf("SearchPermanodesWithAttr %s %s=%q", s.KeyID, attr, qv(val)), errClass(err)+" "+strings.Join(rs, " "))
+				pn, err := x.PermanodeOfSignerAttrValue(ctx, s.PubRef, attr, val)
+				add(fmt.Sprintf("PermanodeOfSignerAttrValue %s %s=%q", s.KeyID, attr, qv(val)), fmt.Sprintf("%s %v", errClass(err), pn))
 			}
 		}
 	}
@@ -231,6 +327,45 @@ func Probe(x *index.Index, c *index.Corpus, o ProbeOpts) []Answer {
 		})
 		sort.Strings(back)
 		add("Corpus.ForeachClaimBack "+ref.String(), strings.Join(back, ","))
+		for _, at := range o.FewTimes {
+			if at.IsZero() {
+				continue
+			}
+			var back []string
+			c.ForeachClaimBack(ref, at, func(cl *camtypes.Claim) bool {
+				back = append(back, claimStr(cl))
+				return true
+			})
+			sort.Strings(back)
+			add(fmt.Sprintf("Corpus.ForeachClaimBack %v at=%s", ref, fmtTime(at)), strings.Join(back, ","))
+		}
+		cii, err := c.GetImageInfo(ctx, ref)
+		add("Corpus.GetImageInfo "+ref.String(), fmt.Sprintf("%s %v", errClass(err), cii))
+		cmt, err := c.GetMediaTags(ctx, ref)
+		add("Corpus.GetMediaTags "+ref.String(), errClass(err)+" "+mapStr(cmt))
+		lat, long, ok := c.FileLatLong(ref)
+		add("Corpus.FileLatLong "+ref.String(), fmt.Sprintf("%v %v %v", ok, lat, long))
+		ckid, err := c.KeyId(ctx, ref)
+		add("Corpus.KeyId "+ref.String(), errClass(err)+" "+ckid)
+	}
+	for _, pn := range o.Permanodes {
+		for _, at := range o.FewTimes {
+			var cls []string
+			c.ForeachClaim(pn, at, func(cl *camtypes.Claim) bool {
+				cls = append(cls, claimStr(cl))
+				return true
+			})
+			sort.Strings(cls) // "Iteration is in an undefined order"
+			add(fmt.Sprintf("Corpus.ForeachClaim %v at=%s", pn, fmtTime(at)), strings.Join(cls, " "))
+		}
+		for _, attr := range o.Attrs {
+			cl, err := c.AppendClaims(ctx, nil, pn, "", attr)
+			var ss []string
+			for i := range cl {
+				ss = append(ss, claimStr(&cl[i]))
+			}
+			add(fmt.Sprintf("Corpus.AppendClaims %v attrFilter=%q", pn, qv(attr)), errClass(err)+" "+strings.Join(ss, " "))
+		}
 	}
 	for _, ref := range o.Refs {
 		if bm, err := c.GetBlobMeta(ctx, ref); err != nil || bm.CamliType != "permanode" {
@@ -241,11 +376,11 @@ func Probe(x *index.Index, c *index.Corpus, o ProbeOpts) []Answer {
 				for _, sid := range signerIDs {
 					v := c.PermanodeAttrValue(ref, attr, at, sid)
 					vs := c.AppendPermanodeAttrValues(nil, ref, attr, at, sid)
-					add(fmt.Sprintf("Corpus.AttrValue(s) %v %q at=%s signer=%q", ref, attr, fmtTime(at), sid), fmt.Sprintf("%q %q", v, vs))
+					add(fmt.Sprintf("Corpus.AttrValue(s) %v %q at=%s signer=%q", ref, qv(attr), fmtTime(at), sid), fmt.Sprintf("%q %q", v, vs))
 				}
 				if !at.IsZero() {
 					for _, val := range o.Values {
-						add(fmt.Sprintf("Corpus.PermanodeHasAttrValue %v %q=%q at=%s", ref, attr, val, fmtTime(at)), fmt.Sprint(c.PermanodeHasAttrValue(ref, at, attr, val)))
+						add(fmt.Sprintf("Corpus.PermanodeHasAttrValue %v %q=%q at=%s", ref, qv(attr), qv(val), fmtTime(at)), fmt.Sprint(c.PermanodeHasAttrValue(ref, at, attr, val)))
 					}
 				}
 			}
@@ -263,7 +398,54 @@ func Probe(x *index.Index, c *index.Corpus, o ProbeOpts) []Answer {
 	})
 	sort.Strings(all)
 	add("Corpus.EnumerateBlobMeta(sorted)", strings.Join(all, " "))
+	{
+		var all []string
+		err := x.EnumerateBlobMeta(ctx, func(bm camtypes.BlobMeta) bool {
+			all = append(all, fmt.Sprintf("%v:%d:%s", bm.Ref, bm.Size, bm.CamliType))
+			return true
+		})
+		sort.Strings(all)
+		add("Index.EnumerateBlobMeta(sorted)", errClass(err)+" "+strings.Join(all, " "))
+	}
+	for _, ct := range []schema.CamliType{"", schema.TypePermanode, schema.TypeClaim, schema.TypeFile, schema.TypeDirectory, schema.TypeStaticSet, schema.TypeBytes, "no-such-type"} {
+		var all []string
+		c.EnumerateCamliBlobs(ct, func(bm camtypes.BlobMeta) bool {
+			all = append(all, fmt.Sprintf("%v:%d:%s", bm.Ref, bm.Size, bm.CamliType))
+			return true
+		})
+		sort.Strings(all)
+		add(fmt.Sprintf("Corpus.EnumerateCamliBlobs(sorted) %q", ct), strings.Join(all, " "))
+	}
+	// node types: each alone, all together, and one repeated
+	ntSets := [][]string{}
+	for _, nt := range o.NodeTypes {
+		ntSets = append(ntSets, []string{nt})
+	}
+	if len(o.NodeTypes) > 1 {
+		ntSets = append(ntSets, o.NodeTypes, []string{o.NodeTypes[0], o.NodeTypes[len(o.NodeTypes)-1], o.NodeTypes[0]})
+	}
+	for _, nts := range ntSets {
+		var pns []string
+		c.EnumeratePermanodesByNodeTypes(func(bm camtypes.BlobMeta) bool {
+			pns = append(pns, bm.Ref.String())
+			return true
+		}, nts)
+		sort.Strings(pns)
+		add(fmt.Sprintf("Corpus.EnumeratePermanodesByNodeTypes(sorted) %q", nts), strings.Join(pns, " "))
+	}
+	var crOld []string
+	c.EnumeratePermanodesCreated(func(bm camtypes.BlobMeta) bool { crOld = append(crOld, bm.Ref.String()); return true }, false)
+	add("Corpus.EnumeratePermanodesCreated oldest-first", strings.Join(crOld, " "))
 	return out
+}
+
+func mapStr(m map[string]string) string {
+	var ss []string
+	for k, v := range m {
+		ss = append(ss, fmt.Sprintf("%s=%q", k, v))
+	}
+	sort.Strings(ss)
+	return strings.Join(ss, ",")
 }
 
 func blobLike(s string) bool { _, ok := blob.Parse(s); return ok }
